@@ -25,10 +25,18 @@ EXTRA_IMPORTS = ['Props.Stack']
 # obligations over what was translated from /repo/vakt/storage/observable.py in this run: the mutating methods of the observable
 # wrapper call the wrapped storage and then notify exactly once (not at all when the call raised), the reading methods never notify
 # (lean/Gen/EquivObservable.lean, against Backends.obsStep over the abstract store)
-EXTRA_BUILD = ['+Gen.EquivObservable']
-GEN_IMPORTS = ['Gen.EquivObservable']
+# ... the publisher (vakt.util.Subject: notify gives every attached listener exactly one update(), lean/Gen/EquivSubject.lean) and the
+# listener create_cached_guard attaches (AllowanceCache.__init__ changes exactly one attribute of the guard, is_allowed_check, now
+# behind the back-end; update() is one invalidate() on that back-end; lean/Gen/EquivAllowance.lean)
+EXTRA_BUILD = ['+Gen.EquivObservable', '+Gen.EquivSubject', '+Gen.EquivAllowance']
+GEN_IMPORTS = ['Gen.EquivObservable', 'Gen.EquivSubject', 'Gen.EquivAllowance']
 GEN_THEOREMS = ['Vakt.GenEquiv.gen_observable_add', 'Vakt.GenEquiv.gen_observable_update', 'Vakt.GenEquiv.gen_observable_delete',
-                'Vakt.GenEquiv.gen_observable_get', 'Vakt.GenEquiv.gen_observable_get_all', 'Vakt.GenEquiv.gen_observable_retrieve_all']
+                'Vakt.GenEquiv.gen_observable_get', 'Vakt.GenEquiv.gen_observable_get_all', 'Vakt.GenEquiv.gen_observable_retrieve_all',
+                'Vakt.GenEquiv.gen_subject_init', 'Vakt.GenEquiv.gen_add_listener', 'Vakt.GenEquiv.gen_remove_listener',
+                'Vakt.GenEquiv.gen_notify', 'Vakt.GenEquiv.notify_single_listener', 'Vakt.GenEquiv.translatedSubject_covers',
+                'Vakt.GenEquiv.gen_allowance_init_backend', 'Vakt.GenEquiv.gen_allowance_init_default',
+                'Vakt.GenEquiv.guard_other_attributes_kept', 'Vakt.GenEquiv.guard_is_allowed_kept', 'Vakt.GenEquiv.guard_check_wrapped',
+                'Vakt.GenEquiv.gen_allowance_update', 'Vakt.GenEquiv.init_then_update', 'Vakt.GenEquiv.translatedAllowance_covers']
 FLOOR = {'quick': 100, 'thorough': 1500}
 ASSUMPTIONS = ["functools.lru_cache's eviction order is modelled (most recently used first, trimmed to capacity) and compared "
                'hit by hit with the real cache; the general within-capacity clause is a theorem about that model '
